@@ -13,10 +13,29 @@ package main
 import (
 	"fmt"
 	"os"
+	"sort"
 	"strconv"
+	"strings"
 
 	_ "verifharness/internal/quiet"
 )
+
+// stats: coverage counters of an oracle run, written next to the verdicts (<verdict-out>.stats, "key value"
+// per line); the check puts them into the evidence so that a decaying generator shows.
+var stats = map[string]int{}
+
+func writeStats(outp string) {
+	keys := make([]string, 0, len(stats))
+	for k := range stats {
+		keys = append(keys, k)
+	}
+	sort.Strings(keys)
+	var b strings.Builder
+	for _, k := range keys {
+		fmt.Fprintf(&b, "%s %d\n", k, stats[k])
+	}
+	_ = os.WriteFile(outp+".stats", []byte(b.String()), 0o644)
+}
 
 func main() {
 	if len(os.Args) < 5 {
@@ -64,6 +83,7 @@ func main() {
 		default:
 			os.Exit(2)
 		}
+		writeStats(os.Args[4])
 	default:
 		os.Exit(2)
 	}
